@@ -811,6 +811,25 @@ static void query_general(World& w, const impl::General_substitution* s, const P
 void op_SUBST_BIND(World& w, const Op& op)
 {
    if (w.gsubsts.empty() || w.params.empty()) return;
+   if (op.f % 16 == 15) {
+      // a burst: 24-47 bindings in a row over few parameters (so most of them re-bind), no query in between, then every
+      // parameter is asked -- whatever the substitution defers until the first lookup is exercised at size
+      auto s = World::pick(w.gsubsts, op.a);
+      auto& m = w.gsubst_model[s];
+      const unsigned count = 24 + op.e % 24;
+      for (unsigned i = 0; i < count; ++i) {
+         auto& p = *World::pick(w.params, op.b + (i * 7 + i / 3) % 11);
+         auto& e = *World::pick(w.exprs, op.c + i * 5);
+         if (m.count(&p)) w.findings.count("rebindings");
+         s->subst(p, e);
+         m[&p] = &e;
+         w.findings.count("bindings");
+      }
+      for (std::size_t k = 0; k < w.params.size() && k < 64; ++k) query_general(w, s, *w.params[k], "after a burst of bindings");
+      w.findings.count("binding_bursts");
+      w.note("subst.burst");
+      return;
+   }
    auto s = World::pick(w.gsubsts, op.a);
    auto& p = *World::pick(w.params, op.b);
    auto& e = *World::pick(w.exprs, op.c);
